@@ -42,10 +42,11 @@ Record rstate := mkR {
   r_flushes : nat;
   (* auxiliary (history) variables: never read by a step, only used to state invariants *)
   r_pa : nat;                  (* number of times the owner lease advanced (SuccessNext) *)
-  r_ca : nat }.                (* number of times the writer lease advanced *)
+  r_ca : nat;                  (* number of times the writer lease advanced *)
+  r_hist : list (list Z) }.    (* content (first `size` bytes) of every block at the moment the owner left it *)
 
 Definition ring_init (out0 trash0 : nat) (bsize : nat) (prog : list (list Z)) : rstate :=
-  mkR out0 trash0 (fun _ => []) (fun _ => bsize) 0 0 0 RPCtorWait RCNotStarted prog [] [] [] 0 0 0.
+  mkR out0 trash0 (fun _ => []) (fun _ => bsize) 0 0 0 RPCtorWait RCNotStarted prog [] [] [] 0 0 0 [].
 
 Section Ring.
   Variables K B : nat.
@@ -59,7 +60,8 @@ Section Ring.
   Definition r_set_p (s : rstate) (adv : bool) (data : nat -> list Z) (size : nat -> nat) (cur : nat) (pc : rppc)
              (prog : list (list Z)) (pend : list Z) : rstate :=
     mkR (r_out s) (r_trash s) data size (if adv then r_next (r_pi s) else r_pi s) (r_ci s) cur pc (r_cpc s) prog pend
-        (r_file s) (r_wsizes s) (r_flushes s) (if adv then S (r_pa s) else r_pa s) (r_ca s).
+        (r_file s) (r_wsizes s) (r_flushes s) (if adv then S (r_pa s) else r_pa s) (r_ca s)
+        (if adv then r_hist s ++ [firstn (size (r_pi s)) (data (r_pi s))] else r_hist s).
 
   (* the destructor up to its first scheduling point: SpillBuffer, or the poison block *)
   Definition r_dtor (s : rstate) (data : nat -> list Z) (cur : nat) : rstate :=
@@ -77,7 +79,7 @@ Section Ring.
 
   Definition r_set_sem (s : rstate) (out trash : nat) (pc : rppc) : rstate :=
     mkR out trash (r_data s) (r_size s) (r_pi s) (r_ci s) (r_cur s) pc (r_cpc s) (r_prog s) (r_pend s)
-        (r_file s) (r_wsizes s) (r_flushes s) (r_pa s) (r_ca s).
+        (r_file s) (r_wsizes s) (r_flushes s) (r_pa s) (r_ca s) (r_hist s).
 
   Definition ring_step_owner (s : rstate) : option rstate :=
     match r_ppc s with
@@ -85,7 +87,7 @@ Section Ring.
       match r_trash s with 0 => None | S t => Some (r_set_sem s (r_out s) t RPSpawn) end
     | RPSpawn =>
       let s1 := mkR (r_out s) (r_trash s) (r_data s) (r_size s) (r_pi s) (r_ci s) (r_cur s) (r_ppc s) RCBegin
-                    (r_prog s) (r_pend s) (r_file s) (r_wsizes s) (r_flushes s) (r_pa s) (r_ca s) in
+                    (r_prog s) (r_pend s) (r_file s) (r_wsizes s) (r_flushes s) (r_pa s) (r_ca s) (r_hist s) in
       Some (r_next_write s1 (r_data s) (r_cur s))
     | RPFill =>
       let k := B - r_cur s in
@@ -124,7 +126,7 @@ Section Ring.
 
   Definition r_set_c (s : rstate) (out trash : nat) (adv : bool) (pc : rcpc) (file : list Z) (ws : list nat) (fl : nat) : rstate :=
     mkR out trash (r_data s) (r_size s) (r_pi s) (if adv then r_next (r_ci s) else r_ci s) (r_cur s) (r_ppc s) pc (r_prog s) (r_pend s)
-        file ws fl (r_pa s) (if adv then S (r_ca s) else r_ca s).
+        file ws fl (r_pa s) (if adv then S (r_ca s) else r_ca s) (r_hist s).
 
   Definition ring_step_writer (s : rstate) : option rstate :=
     match r_cpc s with
